@@ -36,6 +36,9 @@ func (e *Exec) VerifyFunc(fn *ssa.Function, ct *Contract, setup func(st *State, 
 	for _, r := range ct.Requires {
 		st.Assume(e.evalBool(r.Expr, env))
 	}
+	if fn.Name() != "init" {
+		e.initFacts(st, fn, env)
+	}
 	// vacuity guard: the precondition is satisfiable
 	pre := &Obligation{Name: name + "/pre-sat", Kind: "cover", Expect: "sat", Func: fn.String(), Meta: map[string]string{}}
 	pre.VCs = append(pre.VCs, &VC{Asserts: append([]*Term{True}, st.pc...)})
@@ -97,8 +100,8 @@ func (e *Exec) VerifyFunc(fn *ssa.Function, ct *Contract, setup func(st *State, 
 			}
 		},
 		func(st *State, pv *Term) {
-			if mode == "nopanic" {
-				e.AddVC(name+"/safe:panic-escapes", "safe", fn.String(), st, True, "an explicit panic escapes the function")
+			if mode == "nopanic" || ct.NoEscape {
+				e.AddVC(name+"/safe:panic-escapes", "safe", fn.String(), st, True, "a panic escapes the function")
 			}
 			if ct.Pure {
 				e.assertPureFrame(name, fn, st, entry, water0)
